@@ -14,6 +14,7 @@ import (
 	"fmt"
 	"io"
 	"os"
+	"os/signal"
 	"path/filepath"
 	"strings"
 	"time"
@@ -39,6 +40,7 @@ type Script struct {
 	Raw      string   `json:"raw"`     // base64 of the bytes written to stdout in mode raw
 	SleepMs  int      `json:"sleepMs"` // mode sleep: sleep before answering
 	Keep     int      `json:"keep"`    // mode partial: number of response bytes written
+	Sigint   string   `json:"sigint"`  // informational: the mode is passed through C11_SIGINT
 }
 
 type Record struct {
@@ -51,6 +53,19 @@ type Record struct {
 }
 
 func main() {
+	// what the plugin does with SIGINT is settled before anything else (C11_SIGINT: "" | ignore | handle):
+	// a time limit of a few hundred ms may fire while the request is still being decoded
+	switch os.Getenv("C11_SIGINT") {
+	case "ignore":
+		signal.Ignore(os.Interrupt)
+	case "handle":
+		ch := make(chan os.Signal, 4)
+		signal.Notify(ch, os.Interrupt)
+		go func() {
+			for range ch { // "cleaning up", never leaving
+			}
+		}()
+	}
 	data, rerr := io.ReadAll(os.Stdin)
 	// C11_SCRIPT maps the value of the plugin parameter `id=<k>` to the script of that invocation
 	scripts := map[string]Script{}
